@@ -109,6 +109,8 @@ def main(tier):
     rep.attempt(tailguard.check, rep, 'MAD', {'ec_mad', 'ec_mul'}, 32, 5)
     rep.attempt(earlypass.check, rep, 'MAD', {'ec_mad', 'ec_mul'}, 2)
     import samecell
-    rep.attempt(samecell.check, rep, 'MAD', {'ec_mad'}, ['SRC'], ['DESTARR[]'], 190, typed=True)
+    rep.attempt(samecell.check, rep, 'MAD', {'ec_mad'}, ['SRC'], ['DESTARR[]', 'DEST'], 220, typed=True)
     rep.attempt(samecell.check, rep, 'MUL', {'ec_mul'}, ['SRC'], ['DEST'], 4, typed=True)
+    import lanemacro
+    rep.attempt(lanemacro.check, rep, 'MAD', {'ec_mad'}, 1100)
     return rep.finish()
